@@ -65,11 +65,11 @@ package fox
 //@   ensures @C16,C12 pool-balance: poolOut[&old(pt(fox)).ctx] == old(poolOut[&pt(fox).ctx])
 //@   ensures one-handler: hCalls == old(hCalls) + 1
 //@   ensures request: hReq == r
-//@   ensures @C08,C11,C12,C17,C13,C01 direct: old(isDirect(fox, r)) ==> hFn == old(sn(fox, r).route.hall) && hRoute == old(sn(fox, r).route) && !hTsr && hScope == RouteHandler
-//@   ensures @C08,C11,C12,C17,C13,C01 ignore: old(!isDirect(fox, r) && isIgnore(fox, r)) ==> hFn == old(sn(fox, r).route.hall) && hRoute == old(sn(fox, r).route) && hTsr && hScope == RouteHandler
-//@   ensures @C08,C11,C12,C17,C19,C20 redirect: old(!isDirect(fox, r) && isRedirect(fox, r)) ==> hFn == old(fox.tsrRedirect) && hRoute == nil && !hTsr && hScope == RedirectHandler && hNParams == 0
+//@   ensures @C01,C08,C11,C12,C13,C16,C17,C19,C20 direct: old(isDirect(fox, r)) ==> hFn == old(sn(fox, r).route.hall) && hRoute == old(sn(fox, r).route) && !hTsr && hScope == RouteHandler
+//@   ensures @C01,C08,C11,C12,C13,C16,C17,C19,C20 ignore: old(!isDirect(fox, r) && isIgnore(fox, r)) ==> hFn == old(sn(fox, r).route.hall) && hRoute == old(sn(fox, r).route) && hTsr && hScope == RouteHandler
+//@   ensures @C01,C08,C11,C12,C13,C16,C17,C19,C20 redirect: old(!isDirect(fox, r) && isRedirect(fox, r)) ==> hFn == old(fox.tsrRedirect) && hRoute == nil && !hTsr && hScope == RedirectHandler && hNParams == 0
 //@   ensures redirect-only-clean: hScope == RedirectHandler ==> old(isRedirect(fox, r))
-//@   ensures @C08,C11,C12,C17,C19,C20 unserved: old(!isDirect(fox, r) && !isIgnore(fox, r) && !isRedirect(fox, r)) ==> hRoute == nil && !hTsr && hNParams == 0 && (hScope == OptionsHandler || hScope == NoMethodHandler || hScope == NoRouteHandler)
+//@   ensures @C01,C08,C11,C12,C13,C16,C17,C19,C20 unserved: old(!isDirect(fox, r) && !isIgnore(fox, r) && !isRedirect(fox, r)) ==> hRoute == nil && !hTsr && hNParams == 0 && (hScope == OptionsHandler || hScope == NoMethodHandler || hScope == NoRouteHandler)
 //@   ensures options: hScope == OptionsHandler ==> hFn == old(fox.autoOptions) && old(r.Method == "OPTIONS" && fox.handleOptions)
 //@   ensures no-method: hScope == NoMethodHandler ==> hFn == old(fox.noMethod) && old(fox.handleMethodNotAllowed && !(r.Method == "OPTIONS" && fox.handleOptions))
 //@   ensures no-route: hScope == NoRouteHandler ==> hFn == old(fox.noRoute)
